@@ -251,7 +251,7 @@ def _variants_create_solution_from():
 
 
 def scan_solver(ctx, qualname, quick_subset=True):
-    key = (id(ctx.model), qualname, 'solver', ctx.tier)
+    key = (ctx.model.serial, qualname, 'solver', ctx.tier)
     if key in uscan._cache:
         return uscan._cache[key]
     fi = ctx.model.func(qualname)
